@@ -12,6 +12,7 @@ real crate under `catch_unwind` in a debug-assertions build.
 -/
 import ClvmProofs.Lemmas.Interp.OpProps
 import ClvmProofs.Lemmas.Interp.LiftChia
+import ClvmProofs.Lemmas.Interp.LiftCrypto
 
 namespace Clvm.Props.C25
 open Clvm Clvm.Interp
@@ -136,5 +137,15 @@ theorem ofTree_wf (t : Tree) : (Val.ofTree t).wf = true := by
     simp only [Val.ofTree, Val.mkAtom, Val.newAtomTag]
     cases h : Alloc.fitsInSmallAtom b <;> simp [Val.wf, h]
   | pair l r ihl ihr => simp [Val.ofTree, Val.wf, ihl, ihr]
+
+
+/-- **The dialect the crate ships** (all operators): on a well-formed program and environment
+`run_program` never ends in `InternalError`, a panic or an abort, for every flag set, budget, fuel and
+allocator state. -/
+theorem chia_no_internal (cfg : Cfg) (F fuel : Nat) (c0 : Ctr) (p env : Val) (M : Nat)
+    (hp : p.wf = true) (he : env.wf = true) (e : Err)
+    (h : runProgram cfg (chiaDialect cfg cryptoExtra F) fuel c0 p env M = some (.error e)) :
+    Err.isInternal e = false :=
+  crypto_machine_no_internal cfg F fuel c0 p env M hp he e h
 
 end Clvm.Props.C25
